@@ -215,8 +215,82 @@ def shard_e2e(seed: int, n: int) -> Result:
     return res
 
 
+# ---- small-scope exhaustive enumeration ----------------------------------------------------------------
+ENUM_SETUP = [
+    {"op": "open"}, {"op": "connect", "c": 0, "ver": "v2v1", "id": 10, "logger": 0, "daemon": 0, "multi": 0, "name": "a", "pid": 1},
+    {"op": "open"}, {"op": "connect", "c": 1, "ver": "v1", "id": 11, "logger": 0, "daemon": 0, "multi": 0, "name": "", "pid": 2},
+    {"op": "open"}, {"op": "connect", "c": 2, "ver": "v2", "id": 12, "logger": 1, "daemon": 0, "multi": 0, "name": "lg", "pid": 3},
+    {"op": "_drain"},
+    {"op": "sub", "c": 2, "kind": "SUBSCRIBE", "type": 1234}, {"op": "_drain"},
+]
+ALLT = 0x7FFFFFFF
+
+
+def enum_symbols():
+    out = []
+    for c, other in ((0, 11), (1, 10)):
+        out += [
+            {"op": "sub", "c": c, "kind": "SUBSCRIBE", "type": 1234}, {"op": "sub", "c": c, "kind": "UNSUBSCRIBE", "type": 1234},
+            {"op": "sub", "c": c, "kind": "PAUSE", "type": 1234}, {"op": "sub", "c": c, "kind": "RESUME", "type": 1234},
+            {"op": "sub", "c": c, "kind": "SUBSCRIBE", "type": ALLT}, {"op": "sub", "c": c, "kind": "UNSUBSCRIBE", "type": ALLT},
+            {"op": "pub", "c": c, "type": 1234, "dm": 0, "dh": 0, "size": 8, "src": 10 + c},
+            {"op": "pub", "c": c, "type": 1234, "dm": other, "dh": 0, "size": 0, "src": 10 + c},
+        ]
+    return out
+
+
+def run_enum_script(cfg, ops, res: Result = None, oracles=None, prop="C01"):
+    from vlib.world import World
+
+    w = World(cfg, oracles or PROFILE.oracles, prop)
+    try:
+        for op in ops:
+            if op["op"] == "_drain":
+                w.drain()
+            else:
+                w.apply(op)
+        w.drain()
+        w.final_checks()
+        if res is not None:
+            for sh in w.shapes:
+                res.shape(*sh)
+    finally:
+        w.close()
+
+
+def shard_enum(idx, nshards, depth, oracles=None, prop="C01", need_pub=True):
+    """Every sequence of <= depth operations over 16 symbols (2 acting clients x {sub, unsub, pause, resume, sub-all,
+    unsub-all, broadcast publish, directed publish}) next to a logger subscriber, each operation served before the next."""
+    import itertools
+
+    res = Result()
+    syms = enum_symbols()
+    n = 0
+    i = 0
+    cfg = CFGS[0]
+    for d in range(1, depth + 1):
+        for seq in itertools.product(range(len(syms)), repeat=d):
+            i += 1
+            if i % nshards != idx:
+                continue
+            # a sequence without a publish exercises no delivery: its prefixes with a publish cover it
+            if need_pub and not any(syms[k]["op"] == "pub" for k in seq):
+                continue
+            ops = list(ENUM_SETUP)
+            for k in seq:
+                ops += [syms[k], {"op": "_drain"}]
+            try:
+                run_enum_script(cfg, ops, res, oracles, prop)
+            except Violation as v:
+                res.add_finding(v.key, v.what, {"kind": "script", "cfg": cfg, "ops": ops})
+            n += 1
+    res.evaluations += n
+    res.count("small-scope-sequences-enumerated", n)
+    return res
+
+
 def shard_any(kind, *a):
-    return shard(*a) if kind == "raw" else shard_e2e(*a)
+    return {"raw": shard, "e2e": shard_e2e, "enum": shard_enum}[kind](*a)
 
 
 def run(ctx: RunContext) -> int:
@@ -225,12 +299,18 @@ def run(ctx: RunContext) -> int:
     max_len = 60 if ctx.quick else 140
     jobs = [("raw", derive_seed(ctx.seed, i), n, max_len) for i in range(14)]
     jobs += [("e2e", derive_seed(ctx.seed, 50 + i), ctx.scale(250, 6000)) for i in range(2)]
+    depth = 4 if ctx.quick else 5
+    jobs += [("enum", i, 16, depth) for i in range(16)]
     res = run_shards(shard_any, jobs)
+    res.notes.append(f"sub-domain enumerated completely: every sequence of <= {depth} subscription-control / publish operations "
+                     "(16 symbols, 2 acting clients + a logger subscriber) that contains a publish, each served before the next")
     return conclude(ctx, res, RULE, ASSUME, t0)
 
 
 def replay_trace(trace: dict):
-    if "clients" in trace:
+    if trace.get("kind") == "script":
+        run_enum_script(trace["cfg"], trace["ops"])
+    elif "clients" in trace:
         trace = dict(trace, ops=[tuple(o) for o in trace["ops"]])
         e2e_case(trace)
     else:
